@@ -32,7 +32,7 @@ def exhaustive(tier):
 def required(tier):
     return {"exact_pairs": 5000, "type_checks": 5000, "law_checks": 1000,
             "prefix_products": 2000, "cache_entries_audited": 500, "gen_units": 200,
-            "primed_conversions": 1500}
+            "primed_conversions": 1500, "array_conversions": 1000}
 
 
 def shards(tier, seed):
@@ -53,6 +53,8 @@ def shards(tier, seed):
         out.append({"kind": "generated", "name": f"gen{i}", "n": 30 if tier == "quick" else 200})
     for nit in ("fraction", "float", "decimal"):
         out.append({"kind": "primed", "nit": nit, "name": f"primed-{nit}"})
+    # ndarray magnitudes (float and INTEGER dtype) through every conversion entry point, in place and not
+    out.append({"kind": "arrays", "nit": "float", "name": "arrays", "n": 1500 if tier == "quick" else 20000})
     return out
 
 
@@ -251,6 +253,60 @@ def run_shard(spec, rec):
                 cmp(got, mf.v ** k, True, {"src": f"{c}**{k}", "dst": repr(dict(dst)), "primed_with": repr(dict(cont))},
                     "factor-after-priming-the-memo")
         rec.sample({"primed_example": "get_root_units(kilometer/hour) then convert kilometer_per_hour**2"})
+    elif spec["kind"] == "arrays":
+        import numpy as np
+        pos = [c for c in names if fac[c].v > 0 and 1e-30 < fac[c].f() < 1e30]
+        Q = ureg.Quantity
+        for i in range(spec["n"]):
+            a = rng.choice(pos)
+            b = rng.choice([c for c in classes[tuple(sorted(m.root(a)[2].items()))]
+                            if fac[c].v > 0 and 1e-30 < fac[c].f() < 1e30])
+            want = fac[a].f() / fac[b].f()
+            ints = rng.random() < 0.6
+            base = np.array([rng.randint(-5000, 5000) for _ in range(rng.randint(1, 4))],
+                            dtype=np.int64 if ints else float)
+            if not ints:
+                base = base + rng.random()
+            expect = base.astype(float) * want
+            entry = rng.choice(("to", "ito", "m_as", "convert", "convert-inplace", "ito_base_units", "to_base_units"))
+            rec.case(("arrays", a, b, entry, str(base.dtype)), nontrivial=a != b)
+            rec.count("array_conversions")
+            rec.observe("array_entry_points", f"{entry}:{base.dtype}")
+            arg = base.copy()
+            try:
+                if entry == "to":
+                    got = Q(arg, a).to(b).magnitude
+                elif entry == "m_as":
+                    got = Q(arg, a).m_as(b)
+                elif entry == "ito":
+                    q = Q(arg, a)
+                    q.ito(b)
+                    got = q.magnitude
+                elif entry == "convert":
+                    got = ureg.convert(arg, a, b)
+                elif entry == "convert-inplace":
+                    got = ureg.convert(arg, a, b, inplace=True)
+                else:
+                    q = Q(arg, a)
+                    r = q.to_base_units() if entry == "to_base_units" else (q.ito_base_units(), q)[1]
+                    got = r.to(b).magnitude if entry == "to_base_units" else Q(np.array(r.magnitude, dtype=float), r.units).to(b).magnitude
+            except TypeError as e:
+                # numpy refuses to write floats into an integer array: a refusal, not a wrong number
+                rec.count("array_inplace_refused_by_numpy")
+                continue
+            except Exception as e:  # noqa: BLE001
+                rec.violation("raised", {"src": a, "dst": b, "entry": entry, "dtype": str(base.dtype), "err": repr(e)[:200]},
+                              nit=nitname)
+                continue
+            got = np.asarray(got, dtype=float)
+            if got.shape != expect.shape or not np.allclose(got, expect, rtol=1e-9, atol=0):
+                rec.violation("array-conversion-wrong", {"src": a, "dst": b, "entry": entry, "dtype": str(base.dtype),
+                                                         "x": base.tolist(), "got": got.tolist(),
+                                                         "want": expect.tolist()},
+                              nit=nitname, entry=entry, dtype="int" if ints else "float")
+            elif entry in ("to", "m_as", "convert", "to_base_units") and not np.array_equal(arg, base):
+                rec.violation("array-operand-mutated", {"src": a, "dst": b, "entry": entry, "x": base.tolist(),
+                                                        "after": arg.tolist()}, nit=nitname, entry=entry)
     elif spec["kind"] == "compound":
         pos = [c for c in names if fac[c].v > 0]
         for i in range(spec["n"]):
